@@ -1524,7 +1524,8 @@ class Compiler:
             keys = []
             values = []
 
-            for name in names:
+            # (a set: fix the order, it is the order of the mapping)
+            for name in sorted(names):
                 stream, append = self._get_translation_identifiers(name)
                 keys.append(ast.Constant(name))
                 values.append(load(stream))
